@@ -4,10 +4,9 @@ CONSTANTS
   Copy = "pooled"
   Unbinder = "swapdelete"
   PadFix = TRUE
-  Lock = "held"
+  Lock = "snapshot"
 INIT Init
 NEXT Next
-VIEW graphview
-INVARIANTS EmitInitInv
-ACTION_CONSTRAINT EmitEdge
+INVARIANTS ModelLinearizable
+
 CHECK_DEADLOCK FALSE
